@@ -323,7 +323,10 @@ mod imp {
                 pump!(r, r.read_event());
             }
             Some(p) => {
-                let cuts: Vec<usize> = crate::sources::cuts_fixed(p as usize, bytes.len()).into_iter().filter(|x| *x >= 4).collect();
+                // the encoding sniff looks at the first piece only (the exception written into C02): with
+                // a byte-order mark the first piece has at least 4 bytes. Without one the sniff finds
+                // nothing in a short first piece and the declaration must still take effect.
+                let cuts: Vec<usize> = crate::sources::cuts_fixed(p as usize, bytes.len()).into_iter().filter(|x| *x >= 4 || !c.bom).collect();
                 let mut r = Reader::from_reader(ChunkedBufRead::new(&bytes, cuts));
                 let mut buf = Vec::new();
                 pump!(r, {
